@@ -234,6 +234,9 @@ class kMinPathError(pathmodel.AbstractPathModelDAG):
         self.optimization_options = optimization_options.copy() if optimization_options else {}        
 
         if self.solution_weights_superset is not None:
+            if self.weight_type == int and any(weight != round(weight) for weight in self.solution_weights_superset):
+                utils.logger.error(f"{__name__}: solution_weights_superset must contain only integer values when weight_type is int, not {self.solution_weights_superset}")
+                raise ValueError(f"solution_weights_superset must contain only integer values when weight_type is int, not {self.solution_weights_superset}")
             self.k = len(self.solution_weights_superset)
             self.optimization_options["allow_empty_paths"] = True
             self.optimization_options["optimize_with_safe_paths"] = False
